@@ -28,16 +28,18 @@ Definition asTrip (s : sx) : option trip :=
   | L [a; b; v] => match asNat a, asNat b, asQ v with Some i, Some j, Some x => Some (i, j, x) | _, _, _ => None end
   | _ => None
   end.
-(* sparse matrix: (nr nc (triplets) force) -> triplet list actually handed to createFromTriplet *)
-Definition asSparse (s : sx) : option (list trip) :=
+(* sparse matrix: (nr nc (triplets) force) -> dimensions and triplet list handed to createFromTriplet(T, nr, nc) *)
+Definition asSparse (s : sx) : option (nat * nat * list trip) :=
   match s with
   | L [a; b; t; f] =>
       match asNat a, asNat b, asListOf asTrip t, asB f with
-      | Some m, Some n, Some T, Some force => Some (if force then trip_force T m n else T)
+      | Some m, Some n, Some T, Some force => Some (m, n, if force then trip_force T m n else T)
       | _, _, _, _ => None
       end
   | _ => None
   end.
+Definition SCf (a : nat * nat * list trip) : spc := SC_create (snd a) (fst (fst a)) (snd (fst a)).
+Definition SEf (a : nat * nat * list trip) : spe := SE_create (snd a) (fst (fst a)) (snd (fst a)).
 
 (* ---------------------------------------------------------------- encoding *)
 Definition encM (d : dense) : sx := L [I 0%Z; ofNat (nr d); ofNat (nc d); ofList ofQ (dat d)].
@@ -271,20 +273,20 @@ Definition run_sparse (be : bool) (op : Z) (s0 : sx) (args : list sx) : sx :=
   | Some T, Some d =>
     let m := nr d in let n := nc d in
     let mk1 (fc : spc -> res spc) (fe : spe -> res spe) (sp : option dense) :=
-        both (if be then encSE (fe (SE_fromTriplet T)) else encSC (fc (SC_fromTriplet T))) (encSpec encM sp) in
+        both (if be then encSE (fe (SEf T)) else encSC (fc (SCf T))) (encSpec encM sp) in
     let mkv (fc : spc -> res (list Q)) (fe : spe -> res (list Q)) (sp : option (list Q)) :=
-        both (encRes encV (if be then fe (SE_fromTriplet T) else fc (SC_fromTriplet T))) (encSpec encV sp) in
+        both (encRes encV (if be then fe (SEf T) else fc (SCf T))) (encSpec encV sp) in
     match op, args with
     | 0%Z, [] => mk1 (fun s => Ok s) (fun s => Ok s) (Some d)
     | 1%Z, [a; b] =>
         match asNat a, asNat b with
-        | Some i, Some j => both (encRes encQ (if be then SE_getValue (SE_fromTriplet T) i j else SC_getValue (SC_fromTriplet T) i j))
+        | Some i, Some j => both (encRes encQ (if be then SE_getValue (SEf T) i j else SC_getValue (SCf T) i j))
                                  (encSpec encQ (guard (inrange d i j) (getv d i j)))
         | _, _ => sx_error 2 end
     | 9%Z, [] | 90%Z, [] => mk1 SC_transposeInPlace SE_transposeInPlace (Some (tab n m (mT (A_ d))))
     | 10%Z, [a] =>
         (* adding a scalar to every term is only meaningful for a sparse matrix whose pattern is full *)
-        let full := forallb (fun p => existsb (fun t => (trow t =? fst p)%nat && (tcol t =? snd p)%nat) T) (rowmajor m n) in
+        let full := forallb (fun p => existsb (fun t => (trow t =? fst p)%nat && (tcol t =? snd p)%nat) (snd T)) (rowmajor m n) in
         match asQ a with Some v => mk1 (fun s => SC_addScalar s v) (fun s => SE_addScalar s v) (guard (full || qeqb v 0) (tab m n (maddc v (A_ d)))) | None => sx_error 2 end
     | 11%Z, [a] => match asQ a with Some v => mk1 (fun s => SC_prodScalar s v) (fun s => SE_prodScalar s v) (Some (tab m n (mscal v (A_ d)))) | None => sx_error 2 end
     | 12%Z, [a] => match asVec a with Some v => mk1 (fun s => SC_multiplyRow s v) (fun s => SE_multiplyRow s v) (guard (length v =? m)%nat (tab m n (mrowscale (vl v) (A_ d)))) | None => sx_error 2 end
@@ -294,7 +296,7 @@ Definition run_sparse (be : bool) (op : Z) (s0 : sx) (args : list sx) : sx :=
     | 16%Z, [a; b; c] =>
         match asSparse a, sp_math a, asQ b, asQ c with
         | Some Ty, Some dy, Some cx0, Some cy0 =>
-            mk1 (fun s => SC_addMat s (SC_fromTriplet Ty) cx0 cy0) (fun s => SE_addMat s (SE_fromTriplet Ty) cx0 cy0)
+            mk1 (fun s => SC_addMat s (SCf Ty) cx0 cy0) (fun s => SE_addMat s (SEf Ty) cx0 cy0)
                 (guard (isSameSize d dy) (tab m n (mlin2 cx0 (A_ d) cy0 (A_ dy))))
         | _, _, _, _ => sx_error 2 end
     | 18%Z, [a; b; c] =>
@@ -326,8 +328,8 @@ Definition run_sparse (be : bool) (op : Z) (s0 : sx) (args : list sx) : sx :=
     | 22%Z, [a; b; c; e] =>
         match asSparse a, sp_math a, asSparse b, sp_math b, asB c, asB e with
         | Some Tx, Some dx, Some Ty, Some dy, Some tx, Some ty =>
-            mk1 (fun s => SC_prodMatMat s (SC_fromTriplet Tx) (SC_fromTriplet Ty) tx ty)
-                (fun s => SE_prodMatMat s (SE_fromTriplet Tx) (SE_fromTriplet Ty) tx ty)
+            mk1 (fun s => SC_prodMatMat s (SCf Tx) (SCf Ty) tx ty)
+                (fun s => SE_prodMatMat s (SEf Tx) (SEf Ty) tx ty)
                 (guard ((dimc tx dx =? dimr ty dy)%nat && (m =? dimr tx dx)%nat && (n =? dimc ty dy)%nat)
                        (tab m n (mmul (dimc tx dx) (opT tx (A_ dx)) (opT ty (A_ dy)))))
         | _, _, _, _, _, _ => sx_error 2 end
@@ -335,15 +337,15 @@ Definition run_sparse (be : bool) (op : Z) (s0 : sx) (args : list sx) : sx :=
         match asSparse a, sp_math a, asSparse b, sp_math b, asB c with
         | Some Ta, Some da, Some Tm, Some dm, Some t =>
             let n1 := dimr t da in let n2 := dimc t da in
-            mk1 (fun s => SC_prodNormMatMat s (SC_fromTriplet Ta) (SC_fromTriplet Tm) t)
-                (fun s => SE_prodNormMatMat s (SE_fromTriplet Ta) (SE_fromTriplet Tm) t)
+            mk1 (fun s => SC_prodNormMatMat s (SCf Ta) (SCf Tm) t)
+                (fun s => SE_prodNormMatMat s (SEf Ta) (SEf Tm) t)
                 (guard ((nr dm =? n2)%nat && (nc dm =? n2)%nat && (m =? n1)%nat && (n =? n1)%nat) (tab n1 n1 (mcongr t n2 (A_ da) (A_ dm))))
         | _, _, _, _, _ => sx_error 2 end
     | 24%Z, [a; b; c] =>
         match asSparse a, sp_math a, asVec b, asB c with
         | Some Ta, Some da, Some v, Some t =>
             let n1 := dimr t da in let n2 := dimc t da in
-            mk1 (fun s => SC_prodNormMatVec s (SC_fromTriplet Ta) v t) (fun s => SE_prodNormMatVec s (SE_fromTriplet Ta) v t)
+            mk1 (fun s => SC_prodNormMatVec s (SCf Ta) v t) (fun s => SE_prodNormMatVec s (SEf Ta) v t)
                 (guard (((length v =? 0)%nat || (length v =? n2)%nat) && (m =? n1)%nat && (n =? n1)%nat)
                        (tab n1 n1 (match v with [] => mcongr_id t n2 (A_ da) | _ => mcongr_diag t n2 (A_ da) (vl v) end)))
         | _, _, _, _ => sx_error 2 end
@@ -354,8 +356,8 @@ Definition run_sparse (be : bool) (op : Z) (s0 : sx) (args : list sx) : sx :=
 
 (* createFromAnyMatrix(dense) MatrixSparse.cpp:1365: triplets of the non-zero entries, dimensions from the triplets *)
 Definition run_fromAny (be : bool) (d : dense) : sx :=
-  let T := dense_to_triplet d in
-  both (if be then encSE (Ok (SE_fromTriplet T)) else encSC (Ok (SC_fromTriplet T))) (encM d).
+  let T := (nr d, nc d, dense_to_triplet d) in
+  both (if be then encSE (Ok (SEf T)) else encSC (Ok (SCf T))) (encM d).
 
 (* ---------------------------------------------------------------- vectors *)
 Definition encOQ (o : option Q) : sx := L [I 0%Z; ofOQ o].
